@@ -29,8 +29,8 @@ def run(ctx):
     nb = 0
     nd = 0
     for f, props in sel:
-        if 'C18' in props:
-            continue        # oblivious transfer moves are not proofs: their guards are C18's rules
+        if 'C18' in props or 'ProveKey' in f['q']:
+            continue        # oblivious transfer moves and the prover's side are not proof verifications
         nb += r05b(ctx, f, params='C04' in props)
         if f.get('cls') in DLOG_SCOPE:
             nd += r05d(ctx, f)
@@ -45,9 +45,17 @@ def bound_leaves(ctx, f):
     bound = set()
     for fp, labs in inv.items():
         k = invcheck.kind_of(fp)
-        if k in ('invertible', 'all:invertible'):
+        body = fp[1:] if fp[0] == '@loop' else fp
+        kk = k.split(':')[-1]
+        if kk == 'if':
+            # the condition selects which check applies: it depends on its inputs as well
+            bound |= leaves_of_fp(body[1])
+            body = body[2]
+            kk = body[0].split(':')[-1]
+        # a range or invertibility test bounds a value, it does not bind it
+        if kk in ('invertible', 'range'):
             continue
-        bound |= leaves_of_fp(fp)
+        bound |= leaves_of_fp(body)
     return bound, inv
 
 
